@@ -297,6 +297,10 @@ class C34(core.Check):
                                                  ['bloadf', 0, 160]]))
         c.append(self.mk('tandy', {}, 6, 0, 8, 4, [['bload', B8, 0, [255, 0, 255, 1, 2], ['given', 161]],
                                                   ['bloadgen', B8, 0x2001, 5, 9, ['omit']], ['bsave', B8, 0, 8]]))
+        # EGA: every plane of the mode is writable (seed C34f: master plane mask left at 7, plane 3 lost)
+        c.append(self.mk('ega', {}, 9, 0, 1, 16, [['poke', A0, 81, 255], ['plane', 3], ['peek', A0, 81], ['point', 8, 1]]))
+        c.append(self.mk('vga', {}, 7, 0, 1, 16, [['mask', 8], ['bload', A0, 40, [255, 129]], ['plane', 3], ['bsave', A0, 40, 2],
+                                                 ['point', 0, 1], ['point', 15, 1]]))
         # PCOPY onto the ACTIVE page, then draw / read memory and poke / POINT without a SCREEN statement in
         # between (seed C34d: the graphics statements kept drawing into the page's old pixel matrix)
         c.append(self.mk('ega', {}, 7, 0, 1, 16, [['page', 1, 0], ['hline', 0, 319, 0, 5], ['pcopy', 1, 2], ['pcopy', 2, 1],
@@ -693,6 +697,17 @@ class C34(core.Check):
                         if bytewise and e is None:
                             rec['after'] = self.snapshot(s, i)
                             rec['readback'] = mem._get_memory(addr)
+                            if i['kind'] == 1:
+                                # every colour plane of the mode, read one by one (register restored)
+                                mm = s._impl.display.mode.memorymap
+                                saved = mm._plane
+                                rec['planes'] = {}
+                                try:
+                                    for pl in i['planes_used']:
+                                        mm.set_plane(pl)
+                                        rec['planes'][pl] = mem._get_memory(addr)
+                                finally:
+                                    mm.set_plane(saved)
                             rec['plane'] = getattr(s._impl.display.mode.memorymap, '_plane', None)
                             rec['mask'] = getattr(s._impl.display.mode.memorymap, '_plane_mask', None)
                             rec['points'] = self.points_of(s, i, ref, ap, addr)
@@ -939,7 +954,7 @@ class C34(core.Check):
                                         return 'POKE to %#x changed the other colour plane' % addr
                                 if i['kind'] == 1:
                                     # EGA: only planes enabled in the write mask (and present in the mode)
-                                    keep = 0xff & ~(rb['mask'] & i['master'])
+                                    keep = 0xff & ~(rb['mask'] & sum(1 << q for q in i['planes_used']))
                                     if any((before[p][y][x] ^ after[p][y][x]) & keep for x in diff):
                                         return 'POKE to %#x changed colour planes outside the write mask %#x' % (
                                             addr, rb['mask'])
@@ -949,7 +964,18 @@ class C34(core.Check):
                     if i['kind'] == 1:
                         pu = i['planes_used']
                         pl = rb['plane'] % (max(pu) + 1)
-                        writable = pl in pu and ((rb['mask'] & i['master']) >> pl) & 1 == 1
+                        writable = pl in pu and (rb['mask'] >> pl) & 1 == 1
+                        # each plane of the mode: the byte written if enabled in the mask register, else unchanged
+                        for q, got in sorted(rb.get('planes', {}).items()):
+                            if (rb['mask'] >> q) & 1:
+                                if got != op[3]:
+                                    return 'POKE %#x,%d with plane mask %#x: PEEK on colour plane %d returns %d' % (
+                                        addr, op[3], rb['mask'], q, got)
+                            else:
+                                old = self.pack(i, before, cell, q)
+                                if got != old:
+                                    return 'POKE %#x,%d with plane mask %#x changed colour plane %d (%d -> %d)' % (
+                                        addr, op[3], rb['mask'], q, old, got)
                     if writable and rb['readback'] != op[3]:
                         return 'PEEK after POKE %#x,%d returns %d' % (addr, op[3], rb['readback'])
                 if rb.get('points'):
